@@ -212,6 +212,11 @@ def run(ctx):
         if i % 4 == 0:
             npk = rng.randrange(1, 6)
             pk = [c2.EncryptedPacket(rng.randbytes(16 * rng.randrange(1, 5)), rng.randbytes(16)) for _ in range(npk)]
+            if i % 8 == 0:
+                # streams that begin / end with whitespace or NUL bytes (binary data is not text: nothing may be stripped)
+                edge = rng.choice([b" ", b"\n", b"\r\n", b"\t", b"\x0b\x0c", b"\x00", b"\x00\x00 "])
+                pk[-1] = c2.EncryptedPacket(pk[-1].ciphertext, rng.randbytes(16 - len(edge)) + edge)
+                pk[0] = c2.EncryptedPacket(edge + rng.randbytes(16 - len(edge)), pk[0].signature)
             data = b"".join(p.dumps() for p in pk)
             so = core.outcome(lambda: [{"ct": L(a), "sig": L(b)} for a, b in c2.ClientC2Data(output=data).iter_encrypted_packets()])
             ev.append({"op": "split_client", "data": L(data), "r": so[0] if so[0] == "ok" else so[1], "out": so[1] if so[0] == "ok" else []})
